@@ -125,7 +125,7 @@ def tensor_diff(got, want_list):
             e, o = tuple(int(v) for v in w[k][y, x]), tuple(int(round(float(v))) for v in g[k][y, x])
             sig.add(f"{NAMES[e]}->{NAMES.get(o, 'other')}")
         if sig:
-            parts.append(which + ":" + "+".join(sorted(sig)[:3]))
+            parts.append(which + ":" + "+".join(sorted(sig)))
     return "|".join(parts)
 
 
@@ -275,9 +275,12 @@ def check_dataset_group(n, group, res):
     adjs = [R.adjacency(R.graph_from_bits(n, n, b)) for b, _ in group]
     res.nontrivial(("ds", n, tuple((b, tuple(sol)) for b, sol in group)))
 
+    failed_at = {}
+
     def judge_items(ds, opt, site):
         want = [refs(n, n, adjs[i], group[i][1], opt) for i in range(3)]
         items = []
+        failed = failed_at.setdefault(site, [])
         for i in range(3):
             res.ev()
             try:
@@ -287,7 +290,11 @@ def check_dataset_group(n, group, res):
                 return None
             d = tensor_diff(it, want[i])
             if d:
-                res.fail(f"C17|{site}|getitem|{d}|{optname(opt)}", f"{site} ds[{i}] differs from the stated images ({d}), {optname(opt)}, {desc}", rd)
+                if any(all(f[k] <= opt[k] for k in range(3)) and f != opt for f in failed):
+                    res.count("violating_cases_implied_by_smaller_option_set")
+                else:
+                    res.fail(f"C17|{site}|getitem|{d}|{optname(opt)}", f"{site} ds[{i}] differs from the stated images ({d}), {optname(opt)}, {desc}", rd)
+                failed.append(opt)
             items.append(to_np(it))
         return items
 
